@@ -194,7 +194,7 @@ pub struct RowSpec {
 }
 
 fn rowspec_strategy() -> impl Strategy<Value = RowSpec> {
-    (
+    let any_row = (
         (0u8..4, 0u8..3, bytes_strategy(), bytes_strategy(), room_sel(), ent_sel()),
         (any::<u8>(), any::<u8>(), any::<u8>(), prop::option::weighted(0.5, any::<u16>()), any::<u8>(), prop::option::weighted(0.2, bytes_strategy())),
     )
@@ -211,7 +211,28 @@ fn rowspec_strategy() -> impl Strategy<Value = RowSpec> {
             target,
             label,
             binary,
-        })
+        });
+    // rows that pass signature verification (signed by the instance's user or by the other user
+    // of the room): what a hostile but authorised peer can send
+    let signed_row = (
+        (0u8..4, 0u8..2, prop_oneof![4 => Just(RoomSel::Shared), 1 => Just(RoomSel::Private), 1 => Just(RoomSel::Unknown)], prop_oneof![5 => Just(EntSel::Item), 2 => Just(EntSel::Note), 1 => ent_sel()]),
+        (any::<u8>(), prop_oneof![3 => Just(0u8), 1 => any::<u8>()], prop_oneof![3 => Just(1u8), 1 => any::<u8>()], prop::option::weighted(0.4, any::<u16>()), 0u8..5, prop::option::weighted(0.1, bytes_strategy())),
+    )
+        .prop_map(|((kind, signer, room, ent), (json, cdate, mdate, target, label, binary))| RowSpec {
+            kind,
+            signer,
+            key: BytesSpec::Good,
+            sig: BytesSpec::Good,
+            room,
+            ent,
+            json,
+            cdate,
+            mdate,
+            target,
+            label,
+            binary,
+        });
+    prop_oneof![3 => any_row, 2 => signed_row]
 }
 
 #[derive(Clone, Debug, Serialize, Deserialize)]
